@@ -313,6 +313,18 @@ func (u *unitAn) check(body *ast.BlockStmt, visibleReturn bool) (finds []unitFin
 						report("mixed|"+exprStr(x), x.Pos(), fmt.Sprintf("`%s` combines a count of %s (%s) with a count of %s (%s): for any string with a multi-byte character before that point the sum is neither a character position nor a byte offset", exprStr(x), a, exprStr(x.X), b, exprStr(x.Y)))
 					}
 				}
+				// an ordering test between a byte count and a character count (`len(sub) > end-beg`): equality is the ASCII
+				// test (characters == bytes) and is fine, but "does it fit" decided across units answers wrongly as soon as the
+				// byte count exceeds the character count it is compared with
+				if x.Op == token.LSS || x.Op == token.LEQ || x.Op == token.GTR || x.Op == token.GEQ {
+					a, b := u.unitOf(x.X), u.unitOf(x.Y)
+					if a == uCP && b == uByte || a == uByte && b == uCP {
+						sites++
+						if !asciiOK {
+							report("compare|"+exprStr(x), x.Pos(), fmt.Sprintf("`%s` orders a count of %s (%s) against a count of %s (%s): a string with a multi-byte character has more bytes than characters, so a \"too long / fits\" decision taken across the two units is wrong for it (a needle with one two-byte character is longer in bytes than a one-character window)", exprStr(x), a, exprStr(x.X), b, exprStr(x.Y)))
+						}
+					}
+				}
 			case *ast.SliceExpr:
 				if isStringy(u.typeOf(x.X)) {
 					for _, b := range []ast.Expr{x.Low, x.High} {
